@@ -2,6 +2,7 @@ import RbV.Basic.Codec
 import RbV.Ref.MyersHit
 import RbV.Drv.C09
 import RbV.Model.MyersTraceback
+import RbV.Model.MyersTracebackLong
 /-! Driver for property C10: Myers traceback and API agreement.
 
 `c10 <ws> <wl> <new|bld> <pattern> <amb> <wild> <search>/… => <obs>/…`
@@ -57,7 +58,7 @@ def parseObs (s : String) : Option Obs :=
   | _ => none
 
 /-- verdict of one search: `none` = fine (with tags), `some reason` = violation -/
-def checkSearch (eqv : Nat → Nat → Bool) (p : List Nat) (search obs : String) : Except String (Option String × String) :=
+def checkSearch (ws wl : Nat) (eqv : Nat → Nat → Bool) (p : List Nat) (search obs : String) : Except String (Option String × String) :=
   match search.splitOn ":" with
   | [kind, ks, _script, th] =>
     match parseNat ks, parseHex th with
@@ -87,6 +88,35 @@ def checkSearch (eqv : Nat → Nat → Bool) (p : List Nat) (search obs : String
           let same := (o.hits ++ o.extra).all fun h =>
             let r := RbV.Model.MyersTraceback.walkF (RbV.Model.MyersTraceback.Dm mat) (m + h.stop) m h.stop
             r.1 == h.start && r.2.reverse == h.ops
+          -- the stored-state model of the single-word version (`tracebackStore`, proved to return the rule's
+          -- prediction for hits: `traceback_model_sound`, and for every searched end with the lazy store:
+          -- `traceback_model_sound_lazy`): the ring of `find_all` (m + min(k,m) + 2 slots, stale contents) for the hits,
+          -- the store of `find_all_lazy` (n + 2 slots) for the hits and the non-hit ends of a lazy search
+          let stateSame : Option Bool :=
+            if ws = 0 || (o.hits ++ o.extra).isEmpty then none else
+            let old := fun (n : Nat) => (List.range n).map fun i =>
+              (⟨BitVec.ofNat ws (0x5a5a5a5a5a5a5a5a + i), BitVec.ofNat ws (0x3333333333333333 * i), 7 * i % 256⟩ :
+                RbV.Model.MyersSimple.St ws)
+            let agrees := fun (N : Nat) (hs : List Hit) =>
+              let res := RbV.Model.MyersTraceback.scanStore ws eqv p 255 N (old N) t
+                (fun c => hs.any fun h => h.stop == c)
+              hs.all fun h => res.any fun r => r.1 == h.stop && r.2.1 == h.start && r.2.2.1 == h.dist && r.2.2.2 == h.ops
+            let nE := m + min k m + 2
+            let nL := t.length + 2
+            some (agrees nE o.hits && (kind = "E" || agrees nL (o.hits ++ o.extra)))
+          -- the mirror model of the block-based handler (`Model/MyersTracebackLong.lean`; sampled, no theorem yet):
+          -- band-limited columns of the C09 model, sentinel block, stale slots, block switching
+          let blockSame : Option Bool :=
+            if wl = 0 || o.hits.isEmpty then none else
+            let nb := (m + wl - 1) / wl
+            let old := fun (n : Nat) => (List.range (n * nb)).map fun i =>
+              (⟨BitVec.ofNat wl (0x5a5a5a5a5a5a5a5a + i), BitVec.ofNat wl (0x3333333333333333 * i), 7 * i % 256⟩ :
+                RbV.Model.MyersSimple.St wl)
+            let agrees := fun (N : Nat) (hs : List Hit) =>
+              let res := RbV.Model.MyersTracebackLong.scanStoreL wl eqv p k N (old N) t
+                (fun c => hs.any fun h => h.stop == c)
+              hs.all fun h => res.any fun r => r.1 == h.stop && r.2.1 == h.start && r.2.2.1 == h.dist && r.2.2.2 == h.ops
+            some (agrees (m + min k m + 2) o.hits && (kind = "E" || agrees (t.length + 2) o.hits))
           let indel := o.hits.any fun h => h.ops.any (fun x => x = Op.ins || x = Op.del)
           let tags := (if kind = "E" then " eager" else " lazy")
             ++ (if o.hits.any (fun h => h.dist > 0) then " nt" else "")
@@ -101,6 +131,14 @@ def checkSearch (eqv : Nat → Nat → Bool) (p : List Nat) (search obs : String
             ++ (if o.unvisited > 0 then " unvisited-probed" else "")
             ++ (if o.hits.isEmpty then " nohit" else "")
             ++ (if (o.hits ++ o.extra).isEmpty then "" else if same then " tb-model-same" else " tb-drift")
+            ++ (match stateSame with
+                | none => ""
+                | some true => " tb-state-model-same"
+                | some false => " tb-state-drift")
+            ++ (match blockSame with
+                | none => ""
+                | some true => " tb-block-model-same"
+                | some false => " tb-block-drift")
           .ok (none, tags)
     | _, _ => .error "search-parse"
   | _ => .error "search-arity"
@@ -130,7 +168,7 @@ def verdict (toks : List String) (out : String) : String :=
             ++ (if !amb.isEmpty || !wild.isEmpty then " tables" else "")
             ++ (if searches.length > 1 then " reuse" else ""))
         | (s, o) :: r =>
-          match checkSearch eqv p s o with
+          match checkSearch ws wl eqv p s o with
           | .error e => "bad-op " ++ e
           | .ok (some why, _) => "reject search#" ++ toString i ++ " " ++ why
           | .ok (none, tg) => go r (i + 1) (tags ++ tg)
